@@ -93,46 +93,50 @@ func (c *Chunk) WriteUint8(n uint8) error {
 
 // WriteBytes writes the supplied value to the Chunk payload buffer.
 func (c *Chunk) WriteBytes(b []byte) error {
-	i, err := c.checkWriteSize(1)
-	if i == -1 {
-		return err
-	}
-	var x int
+	// NOTE: The space for the header and the payload is reserved with a single
+	//       'checkWriteSize' call. A refused write leaves the buffer untouched
+	//       and the index returned cannot be moved by a later grow.
+	var (
+		i   int
+		err error
+	)
 	switch l := uint64(len(b)); {
 	case l == 0:
-		_ = c.buf[i]
-		c.buf[i] = 0
-		return err
+		return c.WriteUint8(0)
 	case l < LimitSmall:
-		if x, err = c.checkWriteSize(1 + int(l)); x == -1 {
+		if i, err = c.checkWriteSize(2 + int(l)); i == -1 {
 			return err
 		}
-		_, x = c.buf[i+1+int(l)], x+1
+		_ = c.buf[i+1+int(l)]
 		c.buf[i], c.buf[i+1] = 1, byte(l)
+		i += 2
 	case l < LimitMedium:
-		if x, err = c.checkWriteSize(2 + int(l)); x == -1 {
+		if i, err = c.checkWriteSize(3 + int(l)); i == -1 {
 			return err
 		}
-		_, x = c.buf[i+2+int(l)], x+2
+		_ = c.buf[i+2+int(l)]
 		c.buf[i], c.buf[i+1], c.buf[i+2] = 3, byte(l>>8), byte(l)
+		i += 3
 	case l < LimitLarge:
-		if x, err = c.checkWriteSize(4 + int(l)); x == -1 {
+		if i, err = c.checkWriteSize(5 + int(l)); i == -1 {
 			return err
 		}
-		_, x = c.buf[i+4+int(l)], x+4
+		_ = c.buf[i+4+int(l)]
 		c.buf[i], c.buf[i+1], c.buf[i+2] = 5, byte(l>>24), byte(l>>16)
 		c.buf[i+3], c.buf[i+4] = byte(l>>8), byte(l)
+		i += 5
 	default:
-		if x, err = c.checkWriteSize(8 + int(l)); x == -1 {
+		if i, err = c.checkWriteSize(9 + int(l)); i == -1 {
 			return err
 		}
-		_, x = c.buf[i+8+int(l)], x+8
+		_ = c.buf[i+8+int(l)]
 		c.buf[i], c.buf[i+1], c.buf[i+2] = 7, byte(l>>56), byte(l>>48)
 		c.buf[i+3], c.buf[i+4] = byte(l>>40), byte(l>>32)
 		c.buf[i+5], c.buf[i+6] = byte(l>>24), byte(l>>16)
 		c.buf[i+7], c.buf[i+8] = byte(l>>8), byte(l)
+		i += 9
 	}
-	if n := copy(c.buf[x:], b); n != len(b) {
+	if n := copy(c.buf[i:], b); n != len(b) {
 		return io.ErrShortWrite
 	}
 	return err
